@@ -33,7 +33,7 @@ let sout_out (o : coq_N Store.sout) : string =
   | Store.RUnit -> "UNIT"
   | Store.REvent e -> "EV " ^ event_out e
   | Store.RDropped l ->
-    "DROPPED " ^ String.concat " ; "
+    "DROPPED " ^ Stdlib.String.concat " ; "
       (Stdlib.List.map (fun (i, e) ->
            match e with
            | Store.EMsg (m, s, d, _) ->
@@ -43,27 +43,27 @@ let sout_out (o : coq_N Store.sout) : string =
 let dump_store (b : Buffer.t) (s : coq_N Store.store) : unit =
   let add = Buffer.add_string b in
   let o = Store.observe s in
-  add ("LIVE " ^ String.concat " ; "
+  add ("LIVE " ^ Stdlib.String.concat " ; "
          (Stdlib.List.map (fun (i, e) -> string_of_n i ^ " " ^ event_out e) o.Store.ob_live) ^ "\n");
   add ("OFF " ^ res_ids_out o.Store.ob_offered ^ "\n");
   add ("OFFMF " ^ res_ids_out o.Store.ob_offered_mf ^ "\n");
   add ("EMPTY " ^ (match Store.is_empty s with Util.Ok x -> b01 x | Util.Panic _ -> "PANIC") ^ "\n");
   add ("NEXT " ^ string_of_n o.Store.ob_next ^ "\n");
   add ("RAWAVAIL " ^ ids_out s.Store.avail ^ "\n");
-  add ("TMAP " ^ String.concat " ; "
+  add ("TMAP " ^ Stdlib.String.concat " ; "
          (Stdlib.List.map (fun ((p, n), i) -> Printf.sprintf "%s %s %s" (string_of_n p) (string_of_n n) (string_of_n i))
             s.Store.tmap) ^ "\n");
-  add ("RTIMERS " ^ String.concat " ; "
+  add ("RTIMERS " ^ Stdlib.String.concat " ; "
          (Stdlib.List.map (fun (i, t) ->
               Printf.sprintf "%s %s %s [%s]" (string_of_n i) (string_of_n t.Store.ti_proc)
                 (string_of_n t.Store.ti_delay) (ids_out t.Store.ti_blockers))
             s.Store.r_timers) ^ "\n");
-  add ("RMSGS " ^ String.concat " ; "
+  add ("RMSGS " ^ Stdlib.String.concat " ; "
          (Stdlib.List.sort compare
             (Stdlib.List.map (fun ((m, (sr, ds)), q) ->
                  Printf.sprintf "%s %s %s [%s]" (msg_out m) (string_of_n sr) (string_of_n ds) (ids_out q))
                s.Store.r_msgs)) ^ "\n");
-  add ("RPTIMERS " ^ String.concat " ; "
+  add ("RPTIMERS " ^ Stdlib.String.concat " ; "
          (Stdlib.List.map (fun (p, l) -> Printf.sprintf "%s [%s]" (string_of_n p) (ids_out l)) s.Store.r_ptimers)
        ^ "\n")
 
@@ -119,7 +119,7 @@ let run_spec (sc : scenario) : string =
            end else begin add "ILLEGAL\n"; raise Exit end
          | "DUMP" ->
            let o = StoreSpec.aobserve tleb !a in
-           add ("LIVE " ^ String.concat " ; "
+           add ("LIVE " ^ Stdlib.String.concat " ; "
                   (Stdlib.List.map (fun (i, e) -> string_of_n i ^ " " ^ event_out e) o.Store.ob_live) ^ "\n");
            add ("OFF " ^ res_ids_out o.Store.ob_offered ^ "\n");
            add ("OFFMF " ^ res_ids_out o.Store.ob_offered_mf ^ "\n");
@@ -240,8 +240,8 @@ let run (sc : scenario) : string =
        sc.lines
    with Stop ->
      Stdlib.List.iter (fun l ->
-         if String.length l >= 4 && String.sub l 0 4 = "RAW " then Buffer.add_string b (l ^ "\n"))
-       (String.split_on_char '\n' (Buffer.contents opb));
+         if Stdlib.String.length l >= 4 && Stdlib.String.sub l 0 4 = "RAW " then Buffer.add_string b (l ^ "\n"))
+       (Stdlib.String.split_on_char '\n' (Buffer.contents opb));
      Buffer.add_string b "PANIC\n");
   (* model-vs-spec information: not compared with the implementation *)
   Buffer.add_string b (Printf.sprintf "#SPEC legal_ops=%d still_legal=%s mismatch=%s\n" !legal_ops
